@@ -263,6 +263,10 @@ struct World {
     /// cache for image building: (index just after a sync, image at that point)
     cache: Option<(usize, Vec<u8>)>,
     eps_cache: Option<(usize, Arc<Vec<Vec<Ev>>>)>,
+    /// number of crashes this history has lived through
+    incarnation: usize,
+    /// medium this incarnation started from (empty for the first one, the crash image after)
+    base: Vec<u8>,
 }
 
 impl World {
@@ -281,6 +285,8 @@ impl World {
             expect: vec![],
             cache: None,
             eps_cache: None,
+            incarnation: 0,
+            base: vec![],
         }
     }
 
@@ -549,7 +555,7 @@ impl World {
     fn image(&mut self, eps: &[Vec<Ev>], e: usize, k: usize, mask: &str) -> Vec<u8> {
         let (mut from, mut img) = match self.cache.take() {
             Some((at, img)) if at <= e => (at, img),
-            _ => (0, vec![]),
+            _ => (0, self.base.clone()),
         };
         while from < e {
             for ev in &eps[from] {
@@ -585,7 +591,12 @@ impl World {
             };
             let store = match rt.block_on(RedbStore::new(db.clone())) {
                 Ok(s) => s,
-                Err(e) => return Err(format!("store-open:{}", e.to_string().replace(' ', "_"))),
+                Err(e) => {
+                    // a panic inside the open transaction poisons redb's locks; dropping the
+                    // database would panic again and hide the cause
+                    std::mem::forget(db);
+                    return Err(format!("store-open:{}", e.to_string().replace(' ', "_")));
+                }
             };
             let t_open = t0.elapsed();
             let d = self.dump(&db);
@@ -601,8 +612,82 @@ impl World {
         }));
         match r {
             Ok(Ok(s)) => format!("reopen ok {s}"),
+            // redb's allocator state on the medium is stale: the first write transaction
+            // (RedbStore::new's) panics inside redb's page allocator (task id stripped)
+            Ok(Err(e)) if e.starts_with("store-open:") && e.contains("which_is_not_allocated") => {
+                "reopen err allocator-corrupt".to_string()
+            }
             Ok(Err(e)) => format!("reopen err {e}"),
-            Err(_) => "reopen err panic".into(),
+            Err(p) => {
+                let msg = p
+                    .downcast_ref::<String>()
+                    .cloned()
+                    .or_else(|| p.downcast_ref::<&str>().map(|s| s.to_string()))
+                    .unwrap_or_default();
+                let msg: String = msg.chars().take(120).map(|c| if c.is_whitespace() { '_' } else { c }).collect();
+                format!("reopen err panic:{msg}")
+            }
+        }
+    }
+
+    /// MULTI-CRASH: crash at `(e, k)` with subset `mask`, reopen with real redb + `RedbStore::new`
+    /// on a fresh LOGGING backend, and CONTINUE THE HISTORY on the recovered store: it becomes the
+    /// live store of a new incarnation (whose operation 0 is the reopen itself), so that later
+    /// operations and crash points — including crashes during redb's repair-on-open — run on a
+    /// database that has already been through a crash.
+    fn crash_go(&mut self, eps: &[Vec<Ev>], e: usize, k: usize, mask: &str) -> String {
+        let img = self.image(eps, e, k, mask);
+        let base = img.clone();
+        let rt = self.rt.clone();
+        let backend = FaultBackend(Arc::new(Mutex::new(Shared { data: img, log: vec![], no_log: false, dead: false })));
+        let r = catch_unwind(AssertUnwindSafe(|| {
+            let db = match Database::builder().create_with_backend(backend.clone()) {
+                Ok(db) => Arc::new(db),
+                Err(e) => return Err(format!("redb-open:{}", e.to_string().replace(' ', "_"))),
+            };
+            // syncs issued by redb's own repair-on-open, before RedbStore::new starts
+            let repair_syncs = backend.0.lock().unwrap().log.iter().filter(|e| matches!(e, Ev::Sync)).count();
+            let store = match rt.block_on(RedbStore::new(db.clone())) {
+                Ok(s) => s,
+                Err(e) => {
+                    std::mem::forget(db);
+                    return Err(format!("store-open:{}", e.to_string().replace(' ', "_")));
+                }
+            };
+            Ok((db, store, repair_syncs))
+        }));
+        match r {
+            Ok(Ok((db, store, repair_syncs))) => {
+                let d = self.dump(&db);
+                let api = rt.block_on(self.api_check(&store, &db));
+                // retire the crashed incarnation (its process is gone: no clean shutdown)
+                if let Some(old) = self.backend.take() {
+                    old.0.lock().unwrap().dead = true;
+                }
+                self.store = None;
+                self.db = None;
+                self.marks = vec![backend.log_len()];
+                self.create_syncs = repair_syncs;
+                self.expect = vec![d.clone(), d.clone()];
+                self.cache = None;
+                self.eps_cache = None;
+                self.incarnation += 1;
+                self.base = base;
+                self.backend = Some(backend);
+                self.db = Some(db);
+                self.store = Some(store);
+                format!("reopen ok {d} api={api}")
+            }
+            Ok(Err(e)) => format!("reopen err {e}"),
+            Err(p) => {
+                let msg = p
+                    .downcast_ref::<String>()
+                    .cloned()
+                    .or_else(|| p.downcast_ref::<&str>().map(|s| s.to_string()))
+                    .unwrap_or_default();
+                let msg: String = msg.chars().take(120).map(|c| if c.is_whitespace() { '_' } else { c }).collect();
+                format!("reopen err panic:{msg}")
+            }
         }
     }
 
@@ -791,6 +876,111 @@ fn next_op(rng: &mut Rng, st: &std::collections::BTreeMap<u64, char>, fork_at: u
     }
 }
 
+#[derive(Clone)]
+struct CrashPoint {
+    e: usize,
+    k: usize,
+    mask: String,
+    n: usize,
+    sig: u64,
+    vis: usize,
+    in_flight: bool,
+}
+
+/// every event boundary of the operation that has just run on `w` is a crash point; emits one
+/// `crash` (or `crash0`) line per point and surviving-subset mask, returns the `crash` points
+fn emit_crash_points(w: &mut World, rng: &mut Rng, out: &mut Emitter, prev_ep: &mut usize, seeds: usize) -> Vec<CrashPoint> {
+    let mut cands = vec![];
+    let idx = w.marks.len() - 1; // index of this op in its incarnation (0 = open / reopen)
+    let eps = w.epochs();
+    let cur_ep = w.mark_epochs()[idx];
+    // crash points of this operation: (e, k) for its epochs; (cur_ep, 0) = it has returned
+    let mut points: Vec<(usize, usize)> = vec![];
+    for e in *prev_ep..cur_ep {
+        let lo = if e == *prev_ep && idx != 0 { 1 } else { 0 };
+        for k in lo..=eps[e].len() {
+            points.push((e, k));
+        }
+    }
+    if cur_ep != *prev_ep || idx == 0 {
+        points.push((cur_ep, 0));
+    }
+    for (e, k) in points {
+        let n = w.returned_at(e);
+        let in_flight = e < cur_ep;
+        let sig = log_sig(&eps, e);
+        let mut masks: Vec<String> = vec!["all".into()];
+        if k > 0 {
+            masks.push("none".into());
+            masks.push("hdr".into());
+            masks.push("nohdr".into());
+            if k > 1 {
+                masks.push("last".into());
+                masks.push("butlast".into());
+                for _ in 0..seeds {
+                    masks.push(rng.range(1, 1 << 40).to_string());
+                }
+            }
+        }
+        for m in masks {
+            let obs = w.crash(&eps, e, k, &m);
+            if idx == 0 && e < w.create_syncs && w.incarnation == 0 {
+                // redb's own Database::create is still running: RedbStore::new has not
+                // started, the store does not exist yet (outside the property)
+                let outc = if obs.starts_with("reopen ok") { "ok" } else { "invalid" };
+                out.op(format!("crash0 ep={e} k={k} mask={m} sig={sig} out={outc}"), "crash0/during-redb-create", false);
+                continue;
+            }
+            if idx == 0 && e < w.create_syncs {
+                // SECOND crash, while redb's repair-on-open of the FIRST crash is running (before
+                // RedbStore::new starts).  The store exists and holds acknowledged data: the
+                // property applies.  redb's outcome is nondeterministic input of the model line
+                // (`out=`); the spec judges it.
+                let outc = if obs.starts_with("reopen ok") {
+                    "ok"
+                } else if obs == "reopen err allocator-corrupt" {
+                    "corrupt"
+                } else {
+                    "other"
+                };
+                out.op(
+                    format!("crashr ep={e} k={k} mask={m} n={n} sig={sig} out={outc}"),
+                    &format!("crashr/during-redb-repair-on-open/{outc}"),
+                    true,
+                );
+                continue;
+            }
+            let o = obs.strip_prefix("reopen ok ").unwrap_or("").rsplit_once(" api=").map(|x| x.0).unwrap_or("");
+            let vis = if o == w.expect[n] {
+                0
+            } else if n + 1 < w.expect.len() && o == w.expect[n + 1] {
+                1
+            } else {
+                0
+            };
+            let later = w.incarnation > 0;
+            let tag = if idx == 0 && in_flight {
+                if later { "crash/during-reopen-after-crash" } else { "crash/during-first-open" }
+            } else if in_flight {
+                match (vis == 1, later) {
+                    (true, false) => "crash/in-flight-visible",
+                    (false, false) => "crash/in-flight-invisible",
+                    (true, true) => "crash/later-incarnation-in-flight-visible",
+                    (false, true) => "crash/later-incarnation-in-flight-invisible",
+                }
+            } else if later {
+                "crash/later-incarnation-between-ops"
+            } else {
+                "crash/between-ops"
+            };
+            out.op(format!("crash ep={e} k={k} mask={m} n={n} sig={sig} vis={vis}"), tag, in_flight);
+            cands.push(CrashPoint { e, k, mask: m, n, sig, vis, in_flight });
+        }
+    }
+    *prev_ep = cur_ep;
+    cands
+}
+
 impl Prop for C22 {
     fn id(&self) -> &'static str {
         "C22"
@@ -802,11 +992,13 @@ impl Prop for C22 {
          fault-injecting in-memory redb::StorageBackend; after every operation EVERY write/set_len/sync boundary \
          of its backend events is a crash point, each with the unsynced writes kept all / none / only the header \
          page / all but the header page / only the last / all but the last / random subsets; the image is reopened \
-         with real redb + RedbStore::new, raw tables dumped, store API cross-checked. Non-trivial = a crash point \
+         with real redb + RedbStore::new, raw tables dumped, store API cross-checked; twice per history a `crashgo` \
+         continues the history ON the recovered database (multi-crash: later operations, and crash points during \
+         redb's repair-on-open, run on a store that has already crashed). Non-trivial = a crash point \
          strictly inside an operation's events (an operation is in flight) or any store operation line."
     }
     fn gen_ops(&mut self, rng: &mut Rng, tier: Tier, out: &mut Emitter) {
-        let (histories, max_ops, seeds) = if tier == Tier::Thorough { (40, 24, 8) } else { (6, 12, 3) };
+        let (histories, max_ops, seeds) = if tier == Tier::Thorough { (40, 24, 8) } else { (5, 10, 2) };
         for _ in 0..histories {
             let mut w = World::new(self.rt.clone());
             out.op("reset", "reset", false);
@@ -815,6 +1007,9 @@ impl Prop for C22 {
             w.exec(&uni);
             out.op(uni, "universe", false);
             let n_ops = rng.usize(max_ops / 2, max_ops);
+            // after these operations the history goes through a crash and CONTINUES on the recovered
+            // database (multi-crash); most histories crash twice
+            let go_at: Vec<usize> = vec![rng.usize(1, n_ops.max(1)), rng.usize(1, n_ops.max(1))];
             let mut prev_ep = 0usize;
             for i in 0..=n_ops {
                 // choose the next operation from what the real store holds now, run it
@@ -828,74 +1023,30 @@ impl Prop for C22 {
                     continue;
                 }
                 out.op(line.clone(), tag, true);
-                let idx = w.marks.len() - 1; // index of this op (0 = open)
-                let eps = w.epochs();
-                let cur_ep = w.mark_epochs()[idx];
-                // crash points of this operation: (e, k) for its epochs; (cur_ep, 0) = it has returned
-                let mut points: Vec<(usize, usize)> = vec![];
-                for e in prev_ep..cur_ep {
-                    let lo = if e == prev_ep && idx != 0 { 1 } else { 0 };
-                    for k in lo..=eps[e].len() {
-                        points.push((e, k));
+                let cands = emit_crash_points(&mut w, rng, out, &mut prev_ep, seeds);
+                if i >= 1 && go_at.contains(&i) && !cands.is_empty() {
+                    // prefer a point where the operation is in flight
+                    let inflight: Vec<&CrashPoint> = cands.iter().filter(|c| c.in_flight).collect();
+                    let c = if !inflight.is_empty() && rng.chance(3, 4) {
+                        (*rng.pick(&inflight)).clone()
+                    } else {
+                        rng.pick(&cands).clone()
+                    };
+                    let eps = w.epochs();
+                    let obs = w.crash_go(&eps, c.e, c.k, &c.mask);
+                    out.op(
+                        format!("crashgo ep={} k={} mask={} n={} sig={} vis={}", c.e, c.k, c.mask, c.n, c.sig, c.vis),
+                        if c.in_flight { "crashgo/in-flight" } else { "crashgo/between-ops" },
+                        true,
+                    );
+                    if !obs.starts_with("reopen ok") {
+                        break;
                     }
+                    // the reopen (redb repair-on-open + RedbStore::new) is operation 0 of the new
+                    // incarnation: its event boundaries are crash points too (crash during recovery)
+                    prev_ep = 0;
+                    emit_crash_points(&mut w, rng, out, &mut prev_ep, seeds);
                 }
-                if cur_ep != prev_ep || idx == 0 {
-                    points.push((cur_ep, 0));
-                }
-                for (e, k) in points {
-                    let n = w.returned_at(e);
-                    let in_flight = e < cur_ep;
-                    let sig = log_sig(&eps, e);
-                    let mut masks: Vec<String> = vec!["all".into()];
-                    if k > 0 {
-                        masks.push("none".into());
-                        masks.push("hdr".into());
-                        masks.push("nohdr".into());
-                        if k > 1 {
-                            masks.push("last".into());
-                            masks.push("butlast".into());
-                            for _ in 0..seeds {
-                                masks.push(rng.range(1, 1 << 40).to_string());
-                            }
-                        }
-                    }
-                    for m in masks {
-                        let obs = w.crash(&eps, e, k, &m);
-                        if idx == 0 && e < w.create_syncs {
-                            // redb's own Database::create is still running: RedbStore::new has not
-                            // started, the store does not exist yet (outside the property)
-                            let outc = if obs.starts_with("reopen ok") { "ok" } else { "invalid" };
-                            out.op(
-                                format!("crash0 ep={e} k={k} mask={m} sig={sig} out={outc}"),
-                                "crash0/during-redb-create",
-                                false,
-                            );
-                            continue;
-                        }
-                        let o = obs
-                            .strip_prefix("reopen ok ")
-                            .unwrap_or("")
-                            .rsplit_once(" api=")
-                            .map(|x| x.0)
-                            .unwrap_or("");
-                        let vis = if o == w.expect[n] {
-                            0
-                        } else if n + 1 < w.expect.len() && o == w.expect[n + 1] {
-                            1
-                        } else {
-                            0
-                        };
-                        let tag = if idx == 0 && in_flight {
-                            "crash/during-first-open"
-                        } else if in_flight {
-                            if vis == 1 { "crash/in-flight-visible" } else { "crash/in-flight-invisible" }
-                        } else {
-                            "crash/between-ops"
-                        };
-                        out.op(format!("crash ep={e} k={k} mask={m} n={n} sig={sig} vis={vis}"), tag, in_flight);
-                    }
-                }
-                prev_ep = cur_ep;
             }
         }
     }
@@ -904,6 +1055,16 @@ impl Prop for C22 {
             "reset" => {
                 self.world = World::new(self.rt.clone());
                 "ok".into()
+            }
+            "points" => {
+                // debugging aid (never generated): epochs of the log with their sizes and signatures
+                if self.world.backend.is_none() {
+                    return "bad-op no-history".into();
+                }
+                let eps = self.world.epochs();
+                let v: Vec<String> =
+                    (0..eps.len()).map(|e| format!("ep={e}:len={}:sig={}", eps[e].len(), log_sig(&eps, e))).collect();
+                format!("mark_epochs={:?} {}", self.world.mark_epochs(), v.join(" "))
             }
             "logdump" => {
                 // debugging aid (never generated): structure of the backend event log
@@ -920,7 +1081,7 @@ impl Prop for C22 {
                     .collect();
                 format!("marks={:?} {}", self.world.marks, v.join(","))
             }
-            v @ ("crash" | "crash0") => {
+            v @ ("crash" | "crash0" | "crashgo" | "crashr") => {
                 let (Some(e), Some(k), Some(mask), Some(sig)) =
                     (arg_u64(line, "ep"), arg_u64(line, "k"), arg(line, "mask"), arg_u64(line, "sig"))
                 else {
@@ -937,13 +1098,13 @@ impl Prop for C22 {
                 if log_sig(&eps, e) != sig {
                     return "nondeterministic-log".into();
                 }
-                if v == "crash" {
+                if v != "crash0" {
                     let Some(n) = arg_u64(line, "n") else { return "bad-op".into() };
                     if self.world.returned_at(e) != n as usize {
                         return format!("bad-crash-point returned={}", self.world.returned_at(e));
                     }
                 }
-                self.world.crash(&eps, e, k, mask)
+                if v == "crashgo" { self.world.crash_go(&eps, e, k, mask) } else { self.world.crash(&eps, e, k, mask) }
             }
             _ => self.world.exec(line),
         }
@@ -953,7 +1114,7 @@ impl Prop for C22 {
         let a = w.next().unwrap_or("");
         let b = w.next().unwrap_or("");
         Some(match (opname(line), a) {
-            ("crash", _) => format!("{a}-{b}"),
+            ("crash" | "crash0" | "crashgo" | "crashr", _) => format!("{a}-{b}"),
             (_, "err") => format!("err-{b}"),
             _ => a.to_string(),
         })
